@@ -792,10 +792,18 @@ def codec_kept_rule(res, fx):
     fs = [g for g in fx.funcs.values() if g.full and g.q == 'muscle::MessageIOGateway::GetCodec']
     if not fs:
         raise AnalysisBroken('CODEC-KEPT: MessageIOGateway::GetCodec has no analysed body')
-    f = fs[0]
+    from msa import ip as IPK
+    judged = 0
+    for f in IPK.scope(fx, fs[0], r'^muscle::MessageIOGateway::'):       # GetCodec and the private helpers the replacement may have been moved into
+        judged += _codec_kept_in(res, f)
+    if judged < 1:
+        raise AnalysisBroken('CODEC-KEPT: no function in the scope of GetCodec stores a new codec through a ZLibCodec*& parameter')
+
+
+def _codec_kept_in(res, f):
     refp = [p_['d'] for p_ in f.params if 'ZLibCodec' in (f.ptype(p_) or '') and '&' in (f.ptype(p_) or '')]
     if not refp:
-        raise AnalysisBroken('CODEC-KEPT: GetCodec has no ZLibCodec*& parameter')
+        return 0
     d = refp[0]
     drops, stores = [], []
     for n in f.walk():
@@ -806,8 +814,8 @@ def codec_kept_rule(res, fx):
                 stores.append(n)
             else:
                 drops.append(n)
-    if not stores:
-        raise AnalysisBroken('CODEC-KEPT: GetCodec never stores a new codec')
+    if not stores and not drops:
+        return 0
     for (i, dr) in enumerate(sorted(drops, key=lambda n: n['i'])):
         ok, path = P.must_follow(f, dr, stores)
         res.ob('CODEC-KEPT', f.where(dr), 'GetCodec: the codec is dropped only to be replaced', bool(ok), function=f.q, key='CODEC-KEPT|%s|%d' % (f.q, i),
@@ -816,3 +824,4 @@ def codec_kept_rule(res, fx):
                        'on are lost, the next deflated Message fails to inflate and the rest of the stream is never delivered')
     if not drops:
         res.ob('CODEC-KEPT', f.where(), 'GetCodec never drops the codec', True, nontrivial=False, function=f.q, key='CODEC-KEPT|%s|none' % f.q, message='')
+    return 1
